@@ -1,12 +1,16 @@
 package checks
 
 import (
+	"bytes"
 	"context"
 	"encoding/json"
 	"fmt"
+	"io"
 	"math/big"
+	"math/rand"
 	"net"
 	"net/http"
+	"net/http/httptest"
 	"os"
 	"strings"
 	"sync"
@@ -1282,4 +1286,202 @@ func c16FailurePaths(ev *vlib.Evidence) {
 			ev.Violate("registered-name-not-found:after-another-registration-failed", map[string]interface{}{"code": code, "err": msg})
 		}
 	}
+}
+
+// timeoutErr is what a connection returns when a read deadline passes: the
+// connection is fine, the reader may simply read again.
+type timeoutErr struct{}
+
+func (timeoutErr) Error() string   { return "read tcp: i/o timeout (injected)" }
+func (timeoutErr) Timeout() bool   { return true }
+func (timeoutErr) Temporary() bool { return true }
+
+// deadlineReader delivers a byte string in PRNG-sized pieces and, between
+// pieces, now and then reports a passed read deadline instead of data.
+type deadlineReader struct {
+	data     []byte
+	r        *rand.Rand
+	maxPiece int
+	every    int
+	reads    int
+	timeouts int
+}
+
+func (d *deadlineReader) Read(p []byte) (int, error) {
+	d.reads++
+	if len(d.data) == 0 {
+		return 0, io.EOF
+	}
+	if d.reads > 1 && d.r.Intn(d.every) == 0 {
+		d.timeouts++
+		return 0, timeoutErr{}
+	}
+	n := 1 + d.r.Intn(d.maxPiece)
+	if n > len(d.data) {
+		n = len(d.data)
+	}
+	if n > len(p) {
+		n = len(p)
+	}
+	copy(p, d.data[:n])
+	d.data = d.data[n:]
+	return n, nil
+}
+
+// c17ReadDeadlines (C17): the reader of a stream codec polls with a read
+// deadline, so reads fail with a timeout in the middle of messages that arrive
+// in pieces, and the reader reads again. Every message written is still read
+// exactly once, unmodified, in order.
+func c17ReadDeadlines(ev *vlib.Evidence, idx int) {
+	r := vlib.Rand("C17-deadline", idx)
+	n := 1 + r.Intn(10)
+	maxPiece := vlib.Pick(r, 1, 7, 64, 1000, 5000)
+	maxSize := 40 * maxPiece // a reader that starts over after each timeout re-parses what it has: keep that bounded
+	if maxSize > 20000 {
+		maxSize = 20000
+	}
+	var wire bytes.Buffer
+	wc := jsonrpc2.IOCodec(rwcT{strings.NewReader(""), &wire, io.NopCloser(nil)})
+	written := []string{}
+	for i := 0; i < n; i++ {
+		m := genMessage(r, 0, i, maxSize)
+		wc.WriteMessage(m)
+		written = append(written, canon(m))
+	}
+	dr := &deadlineReader{data: wire.Bytes(), r: r, maxPiece: maxPiece, every: vlib.Pick(r, 2, 3, 8, 50)}
+	rc := jsonrpc2.IOCodec(rwcT{dr, io.Discard, io.NopCloser(nil)})
+	kept := []*jsonrpc2.Message{}
+	var rerr error
+	for attempts := 0; len(kept) < n && attempts < 10000000; attempts++ {
+		m, err := rc.ReadMessage()
+		if err != nil {
+			if _, ok := err.(timeoutErr); ok {
+				continue // the deadline passed: read again
+			}
+			rerr = err
+			break
+		}
+		kept = append(kept, m)
+	}
+	read := []string{}
+	for _, m := range kept {
+		read = append(read, canon(m))
+	}
+	desc := fmt.Sprintf("stream read-deadlines messages=%d max-piece=%d timeout-every=%d timeouts=%d", n, dr.maxPiece, dr.every, dr.timeouts)
+	ev.Case(desc+fmt.Sprint(idx), dr.timeouts > 0)
+	ev.Count("messages:stream-with-read-deadlines", int64(len(read)))
+	ev.Count("read-deadlines-passed-mid-stream", int64(dr.timeouts))
+	if p := compareSeq(written, read); p != "" || rerr != nil {
+		ev.Violate("stream:"+classifyC17(p, rerr)+":read-deadline-mid-message", map[string]interface{}{"case": desc, "index": idx, "problem": p, "err": fmt.Sprint(rerr)})
+	}
+}
+
+// DeliverService counts what the HTTP server side handled.
+type DeliverService struct {
+	mu     sync.Mutex
+	counts map[string]int
+}
+
+func (d *DeliverService) Deliver(token string) (string, error) {
+	d.mu.Lock()
+	d.counts[token]++
+	d.mu.Unlock()
+	return token, nil
+}
+
+// c17HTTPReplyLost (C17): over HTTP, the reply of a message is lost after the
+// server has read and handled it (the connection drops, or the reply is slower
+// than the client's own timeout). One message written is still read by the
+// other side once, not twice.
+func c17HTTPReplyLost(ev *vlib.Evidence, idx int) {
+	r := vlib.Rand("C17-http-replylost", idx)
+	ds := &DeliverService{counts: map[string]int{}}
+	inner := &jsonrpc2.HTTPServer{}
+	if err := inner.Server.RegisterMethod("deliver", ds, "Deliver"); err != nil {
+		panic(err)
+	}
+	var mu sync.Mutex
+	lose := map[string]string{} // token -> how the reply is lost
+	reads := map[string]int{}   // token -> requests carrying it that reached the server
+	handler := http.HandlerFunc(func(w http.ResponseWriter, req *http.Request) {
+		body, _ := io.ReadAll(req.Body)
+		how := ""
+		mu.Lock()
+		for tok, h := range lose {
+			if bytes.Contains(body, []byte(`"`+tok+`"`)) {
+				reads[tok]++
+				if reads[tok] == 1 {
+					how = h
+				}
+			}
+		}
+		mu.Unlock()
+		req.Body = io.NopCloser(bytes.NewReader(body))
+		switch how {
+		case "":
+			inner.ServeHTTP(w, req)
+		case "connection-dropped":
+			inner.ServeHTTP(httptest.NewRecorder(), req) // read and handled ...
+			if hj, ok := w.(http.Hijacker); ok {
+				if c, _, err := hj.Hijack(); err == nil {
+					c.Close() // ... and the reply never makes it
+				}
+			}
+		case "reply-slower-than-client-timeout":
+			inner.ServeHTTP(httptest.NewRecorder(), req)
+			time.Sleep(600 * time.Millisecond)
+			inner.ServeHTTP(w, httptest.NewRequest("POST", "/", strings.NewReader(`{"jsonrpc":"2.0","id":0,"method":"nope"}`)))
+		}
+	})
+	ln, err := net.Listen("tcp", "127.0.0.1:0")
+	if err != nil {
+		panic(err)
+	}
+	hs := &http.Server{Handler: handler}
+	go hs.Serve(ln)
+	defer hs.Close()
+	svc := &jsonrpc2.HTTPService{Endpoint: "http://" + ln.Addr().String() + "/"}
+	n := 4 + r.Intn(8)
+	lost := 0
+	for k := 0; k < n; k++ {
+		tok := fmt.Sprintf("hl%d-%d", idx, k)
+		how := ""
+		if k > 0 && r.Intn(3) == 0 {
+			how = vlib.Pick(r, "connection-dropped", "connection-dropped", "reply-slower-than-client-timeout")
+			lost++
+		}
+		mu.Lock()
+		lose[tok] = how
+		mu.Unlock()
+		ctx, cancel := context.WithTimeout(context.Background(), 20*time.Second)
+		var got string
+		svc.HTTPClient.Timeout = 30 * time.Second
+		if how == "reply-slower-than-client-timeout" {
+			svc.HTTPClient.Timeout = 150 * time.Millisecond // the server holds this reply back for much longer
+		}
+		cerr := svc.Call(ctx, &got, "deliver", tok)
+		cancel()
+		time.Sleep(10 * time.Millisecond)
+		ds.mu.Lock()
+		handled := ds.counts[tok]
+		ds.mu.Unlock()
+		mu.Lock()
+		seen := reads[tok]
+		mu.Unlock()
+		ev.Count("messages:http-with-lost-replies", 1)
+		detail := map[string]interface{}{"message": k, "reply": map[string]string{"": "delivered"}[how] + how, "call_error": fmt.Sprint(cerr), "read_by_server": seen, "handled": handled, "index": idx}
+		switch {
+		case seen > 1 || handled > 1:
+			ev.Violate("http:message-read-more-than-once:reply-"+map[bool]string{true: "lost", false: "delivered"}[how != ""], detail)
+			return
+		case seen == 0 || handled == 0:
+			ev.Violate("http:message-lost:reply-lost-scenario", detail)
+			return
+		case how == "" && (cerr != nil || got != tok):
+			detail["got"] = got
+			ev.Violate("http:message-corrupted:after-lost-reply", detail)
+			return
+		}
+	}
+	ev.Case(fmt.Sprintf("http reply-lost messages=%d lost=%d idx=%d", n, lost, idx), lost > 0)
 }
